@@ -58,6 +58,16 @@ def observe(cls, data_len, pc, m, variant, rng, seed_pat):
             msg.data_set = data
         elif variant == 'bytesio':
             msg.data_set = io.BytesIO(data)
+        elif variant == 'gzip':
+            # a file object whose fileno() belongs to ANOTHER byte stream than the one it reads (an instance kept
+            # compressed on disk): sizes taken from the descriptor are not the data set's
+            import gzip
+            tmp = tempfile.NamedTemporaryFile(dir=common.BUILD, suffix='.gz')
+            with gzip.GzipFile(fileobj=tmp, mode='wb') as gz:
+                gz.write(data)
+            tmp.flush()
+            tmp.seek(0)
+            msg.data_set = gzip.GzipFile(fileobj=tmp, mode='rb')
         elif variant == 'shortread':
             msg.data_set = ShortReader(data, 1 + seed_pat % 7, 3 + seed_pat % 50)
         elif variant == 'bytesio_off':
@@ -189,6 +199,8 @@ def main(tier, seed):
         for sp in range(1, 15 if tier == 'quick' else 60):      # the seed decides which reads are short and how short
             for mult in (2, 5):
                 short_specs.append((dm_.CStoreRQMessage, mult * (m - 6) + sp % 4, 1 + 2 * (sp % 100), m, 'shortread', sp))
+        for n in (1, 3 * (m - 6), 40 * (m - 6) + 5):             # compressible (pattern) data of 1, 3 and 40 fragments
+            short_specs.append((dm_.CStoreRQMessage, n, 3, m, 'gzip', 7))
     short_obs = [observe(cls, n, pc, m, v, rng, sp) for (cls, n, pc, m, v, sp) in short_specs]
     terms = [render(c) for c in obs]
     run = common.CoqRun('C06')
@@ -212,7 +224,7 @@ def main(tier, seed):
                    'lengths within +-2 of k(m-6) for large m; 2^k-1,2^k,2^k+1 up to 2^32-1; pc ids 1..255; '
                    'bytes / BytesIO / real file, the streams also positioned after a header, and raw streams with short reads; non-trivial = at least two fragments' % (20 if tier == 'quick' else 40))
     cov['distribution'] = dict(
-        variants=dict((v, sum(1 for c in obs if c['variant'] == v)) for v in ('bytes', 'bytesio', 'bytesio_off', 'file', 'file_off', 'shortread')),
+        variants=dict((v, sum(1 for c in obs if c['variant'] == v)) for v in ('bytes', 'bytesio', 'bytesio_off', 'file', 'file_off', 'shortread', 'gzip')),
         fragments_max=max(len(c['obs']) for c in obs), with_data=sum(1 for c in obs if c['data_len']),
         impl_errors=sum(1 for c in obs if c['err']))
     cov['samples'] = [dict(cls=c['cls'], m=c['m'], data_len=c['data_len'], pc=c['pc'], variant=c['variant'],
